@@ -13,12 +13,12 @@ CHECKS = {
             "DESIGN.md 4/C02"),
     "C03": ("exploration",
             "runtime monitoring: metamorphic oracle (same bytes under 6-12 segmentations; with/without surplus bytes) + independent-cursor differential monitor for the buffer.Reader accessors, checkptr build, child-process crash oracle",
-            "Generated client streams (SSL/auth/simple/extended/COPY, truncated) are delivered all-at-once, per byte, cut inside every header and at random cut sets; transcripts and callback traces must be identical; surplus bytes inside a message's declared length must not change anything or reach a callback; accessor results are compared with an independent cursor. Held-on-observed.",
+            "Generated client streams (SSL/auth/simple/extended/COPY, truncated) are delivered all-at-once, per byte, cut inside every header and at random cut sets; transcripts and callback traces must be identical (one segmentation pauses at every cut in virtual time, firing pending read deadlines) and the reference run must show the parameters each Bind carried; surplus bytes inside a message's declared length must not change anything or reach a callback; accessor results are compared with an independent cursor. Held-on-observed.",
             "ParameterStatus order normalised; after an accessor error the sequence is not judged further.",
             "DESIGN.md 4/C03"),
     "C04": ("fault_enumeration",
             "runtime monitoring with exhaustive fault injection at the transport (every k-th Read, k-th Write, every inbound byte offset of each canonical session) + structure-aware input mutation; oracles: child-process crash oracle, close/spin/leak detectors, probe connections, allocation profile sanitizer (MemProfileRate=1), no-fabrication frame model",
-            "For each canonical session the fault-free run's reads, writes and bytes are measured and every fault position is then injected (error, EOF, short write); mutated inputs are run in every phase. The process must survive, the connection must end, nothing may leak, allocations stay under 8L+4MiB, and callbacks only see data carried by well-framed input. Exhaustive over fault positions of the listed sessions; held-on-observed for mutations.",
+            "For each canonical session the fault-free run's reads, writes and bytes are measured and every fault position is then injected (error, EOF, short write); mutated inputs are run in every phase; every type of the default type map is fed hostile binary and text values through both decode entry points; bodies full of aligned message look-alikes. The process must survive, the connection must end, nothing may leak, allocations stay under 8L+4MiB, and callbacks only see data carried by well-framed input. Exhaustive over fault positions of the listed sessions; held-on-observed for mutations.",
             "Faults are injected at the net.Conn boundary (where the library observes them); allocation bound has an additive constant (see assumptions).",
             "DESIGN.md 4/C04"),
     "C10": ("exploration",
@@ -63,7 +63,7 @@ CHECKS = {
             "DESIGN.md 4/C15"),
     "C16": ("exploration",
             "runtime monitoring: forced schedules through build-tagged schedule points (exhaustive product grid) + randomized stress under the race detector; happens-before oracles built from harness channels/atomics; crash and deadlock classification",
-            "Full product of connection state x number of Close callers x Close start mode x message kind on fresh servers, then stress rounds; a running callback observing 'all Close calls returned', Close returning while a handler is held, a panic, Serve != nil, or a library goroutine blocked after all gates were released are violations. Held-on-observed schedules.",
+            "Full product of connection state x number of Close callers x Close start mode x message kind on fresh servers, then stress rounds, plus directed life-cycle cases (hundreds of idle connections, accept loop ending on its own, client stalled in authentication, one slice over real loopback sockets through ListenAndServe); a running callback observing 'all Close calls returned', Close returning while a handler is held, a panic, Serve != nil, or a library goroutine blocked after all gates were released are violations. Held-on-observed schedules.",
             "Hooks are six no-op call sites behind the verif tag; settle periods affect detection power only.",
             "DESIGN.md 4/C16"),
     "C20": ("exploration",
